@@ -17,7 +17,8 @@
 From Coq Require Import List ZArith Bool.
 From ApiFu Require Import Base.Sexp Cost.CostModel Cost.CostSpec Cost.CostProofs.
 From ApiFu Require Val.Values Val.CoerceModel Val.CoerceSpec Val.CoerceProofs Relay.RelayModel.
-From ApiFu Require Import Cost.CostArgs Cost.CostArgsProofs Cost.CostFragments Cost.CostRelay.
+From ApiFu Require Import Cost.CostArgs Cost.CostArgsProofs Cost.CostFragments Cost.CostRelay Cost.CostTrace Cost.CostTraceProofs Cost.CostC04.
+From ApiFu Require Vld.Ast Vld.ValidatorModel Vld.Hyps Vld.ProofsCommon.
 Import ListNotations.
 Open Scope Z_scope.
 
@@ -350,6 +351,119 @@ Theorem C14_connection_edge_count_accepts : forall first last n,
                              RelayModel.a_after := None; RelayModel.a_before := None |} = None.
 Proof. exact connection_edge_count_accepts. Qed.
 
+
+(** * Round 4 *)
+
+(** ** every call made during the walk (Cost/CostTrace.v).  [validate_cost_trace] is the rule on a
+    request returning, besides the outcome, the list of calls [def.Cost(FieldCostContext{ctx, args})]
+    the walk made, in order ([call] = field selection, cost context, argument map).  The check
+    compares this list with the calls the real cost functions received, case by case. *)
+
+(** the traced rule is the rule: its outcome is [validate_cost_request]'s (to which all theorems
+    above apply) *)
+Theorem C14_trace_is_the_walk : forall (C : Type) E dt skip_zero fuel dc ctx0 ops frs opname raw max,
+  fst (validate_cost_trace C E dt skip_zero fuel dc ctx0 ops frs opname raw max)
+  = validate_cost_request C E dt skip_zero fuel dc ctx0 ops frs opname raw max.
+Proof. exact trace_outcome. Qed.
+
+(** every call, for every document (valid or not), every variables, every cost functions: it is the
+    call of a field selection of the chosen operation or of a fragment of the document, on exactly
+    the map C05's CoerceArgumentValues returned for that selection under the coerced variables of
+    the chosen operation (and the cost function answered) *)
+Theorem C14_every_cost_call_is_coerced : forall (C : Type) E dt skip_zero fuel dc ctx0 ops frs opname raw max c,
+  In c (snd (validate_cost_trace C E dt skip_zero fuel dc ctx0 ops frs opname raw max)) ->
+  exists o vv,
+    chosen_op C ops opname = Some o /\
+    CoerceModel.coerce_variable_values CoerceModel.all_fixed E dt (ao_vardefs o) raw = Values.Ok vv /\
+    (field_in C (ao_body o) (c_field c) \/ exists p, In p frs /\ field_in C (snd p) (c_field c)) /\
+    CoerceModel.coerce_argument_values CoerceModel.all_fixed E dt (af_argdefs (c_field c)) (af_args (c_field c)) vv
+    = Values.Ok (c_args c) /\
+    exists g, af_cost (c_field c) = Some g /\ g (c_ctx c) (c_args c) <> None.
+Proof. exact trace_calls_are_coerced. Qed.
+
+(** jointly with C05: if the field selections of the document passed the variable-usage rule
+    ([field_usage_ok], C05's [usage_ok]) over a schema whose defaults are values of their types,
+    every argument map any cost function is called with during the walk conforms to the declared
+    argument types *)
+Theorem C14_every_cost_call_conforms : forall (C : Type) E dt skip_zero fuel dc ctx0 ops frs opname raw max o,
+  chosen_op C ops opname = Some o ->
+  CoerceSpec.env_ok E = true ->
+  CoerceModel.has_dup (map Values.vd_name (ao_vardefs o)) = false -> CoerceProofs.request_ok (ao_vardefs o) raw ->
+  (forall f, field_in C (ao_body o) f \/ (exists p, In p frs /\ field_in C (snd p) f) ->
+             CoerceModel.has_dup (map fst (af_argdefs f)) = false /\
+             (forall ad, In ad (af_argdefs f) -> CoerceSpec.default_ok E (snd ad) = true) /\
+             field_usage_ok C E (ao_vardefs o) f = true) ->
+  forall c, In c (snd (validate_cost_trace C E dt skip_zero fuel dc ctx0 ops frs opname raw max)) ->
+            CoerceSpec.args_conform_b E (af_argdefs (c_field c)) (c_args c) = true.
+Proof. exact trace_calls_conform. Qed.
+
+
+(** ** reference coercion of every call, for any document (Cost/CostC04.v; jointly with C05's
+    refinement lemmas).  Only uniqueness facts are needed: argument names unique per selection
+    (5.4.2), input-object field names unique per literal (5.6.3, [lit_nodup]), also in the default
+    values of the chosen operation [o].  Then every argument map a cost function is called with
+    during the walk is GraphQL's CoerceArgumentValues (6.4.1) of that selection's literals under
+    CoerceVariableValues (6.1.2) of the request — C05's reference functions. *)
+Theorem C14_every_cost_call_is_reference_coerced :
+  forall (C : Type) E dt skip_zero fuel dc ctx0 ops frs opname raw max (o : aop C),
+  chosen_op C ops opname = Some o ->
+  CoerceSpec.env_ok E = true ->
+  (forall p, In p raw -> CoerceSpec.jval_ok (snd p) = true) ->
+  (forall def dflt, In def (ao_vardefs o) -> Values.vd_default def = Some dflt -> CoerceSpec.lit_nodup dflt = true) ->
+  (forall f, in_request C o frs f ->
+             CoerceSpec.dup_names (map fst (af_args f)) = false /\
+             forall a l, In (a, l) (af_args f) -> CoerceSpec.lit_nodup l = true) ->
+  forall c, In c (snd (validate_cost_trace C E dt skip_zero fuel dc ctx0 ops frs opname raw max)) ->
+    exists vv,
+      CoerceSpec.ref_variable_values E dt (ao_vardefs o) raw = Some vv /\
+      CoerceSpec.ref_argument_values E dt (af_argdefs (c_field c))
+        (map (fun p => match p with (k, l) => (k, CoerceSpec.abs_lit vv l) end) (af_args (c_field c))) = Some (c_args c).
+Proof. exact trace_calls_reference. Qed.
+
+(** ** behind the validator (C04 x C05 x C14).
+
+    FULL STATEMENT: for every schema, every document [D] accepted by C04's [validate_model repaired]
+    and every request for it, every call of a cost function made by the cost walk over [D] sees an
+    argument map that conforms to the declared argument types and is the reference coercion of what
+    the client sent.
+
+    PROVED (partial): the statement with the correspondence between C04's encoding of the document
+    ([D]: AST with positions and TypeInfo annotations, schema [S]) and the encoding the cost rule's
+    model walks ([ops], [frs] with C05 literals, input types [E]) as the explicit hypothesis
+    [document_bridge] (Cost/CostC04.v): three implications, each from a specification fact C04 PROVES
+    of an accepted document — 5.4 ([C04_accepted_arguments_hold]), 5.6
+    ([C04_validate_verdict_partial]), the order-free content of validateVariables
+    ([C04_variables_rule_iff] through [C04_accepted_iff_rules_silent]) — to the fact about the
+    request's field selections that C05's lemmas consume (argument names unique; [lit_nodup];
+    [usage_ok]).  The proof derives the three C04 facts from acceptance and then applies
+    [C14_every_cost_call_conforms] and [C14_every_cost_call_is_reference_coerced].
+    NOT PROVED, the exact gap: [document_bridge] itself, i.e. a translation between the two
+    encodings of a document that preserves argument lists, expected types and variable uses — item
+    (c) "the document level" of [C05_C04_coercion_bridge_partial]; C04 and C05 only relate single
+    literals ([BridgeC04.tr_lit]).  For object-free literals the [lit_nodup] part holds outright
+    ([obj_free_lit_nodup]).  The request-side facts (the conclusions of the three implications, and the
+    schema-side hypotheses) are evaluated by the check on every case the REAL validator accepted
+    ([CostCheck.request_facts], mismatch validated-document-violates-theorem-hypotheses). *)
+Theorem C14_accepted_document_cost_calls_partial :
+  forall (C : Type) E dt pi S F D (ops : list (aop C)) frs opname raw o skip_zero fuel dc ctx0 max,
+  ProofsCommon.order_ok pi -> Hyps.schema_ok S = true ->
+  ValidatorModel.validate_model ValidatorModel.repaired pi S F D = Ast.Done [] ->
+  Hyps.values_typed_input S F D = true ->
+  document_bridge C E S F D frs o ->
+  chosen_op C ops opname = Some o ->
+  CoerceSpec.env_ok E = true ->
+  (forall f, in_request C o frs f ->
+             CoerceModel.has_dup (map fst (af_argdefs f)) = false /\
+             forall ad, In ad (af_argdefs f) -> CoerceSpec.default_ok E (snd ad) = true) ->
+  (forall p, In p raw -> CoerceSpec.jval_ok (snd p) = true) ->
+  forall c, In c (snd (validate_cost_trace C E dt skip_zero fuel dc ctx0 ops frs opname raw max)) ->
+    CoerceSpec.args_conform_b E (af_argdefs (c_field c)) (c_args c) = true /\
+    exists vv,
+      CoerceSpec.ref_variable_values E dt (ao_vardefs o) raw = Some vv /\
+      CoerceSpec.ref_argument_values E dt (af_argdefs (c_field c))
+        (map (fun p => match p with (k, l) => (k, CoerceSpec.abs_lit vv l) end) (af_args (c_field c))) = Some (c_args c).
+Proof. exact accepted_document_cost_calls. Qed.
+
 Print Assumptions C14_checked_mul_spec.
 Print Assumptions C14_checked_add_spec.
 Print Assumptions C14_select_op_spec.
@@ -381,3 +495,8 @@ Print Assumptions C14_expand_complete.
 Print Assumptions C14_served_page_within_count.
 Print Assumptions C14_connection_edges_le_multiplier_relay.
 Print Assumptions C14_connection_edge_count_accepts.
+Print Assumptions C14_trace_is_the_walk.
+Print Assumptions C14_every_cost_call_is_coerced.
+Print Assumptions C14_every_cost_call_conforms.
+Print Assumptions C14_every_cost_call_is_reference_coerced.
+Print Assumptions C14_accepted_document_cost_calls_partial.
